@@ -36,7 +36,7 @@ public:
      *                 Note that (readFrom) is NOT required to be an aligned address; these methods will handle unaligned reads correctly.
      * @param writeTo the POD-type variable whose value should be set based on the bytes we read.
      */
-   static void Import(const void * readFrom,   bool & writeTo) {writeTo = muscleCopyIn< bool>(readFrom);}
+   static void Import(const void * readFrom,   bool & writeTo) {writeTo = (muscleCopyIn<uint8>(readFrom) != 0);}
    static void Import(const void * readFrom,   int8 & writeTo) {writeTo = muscleCopyIn< int8>(readFrom);}
    static void Import(const void * readFrom,  uint8 & writeTo) {writeTo = muscleCopyIn<uint8>(readFrom);}
    static void Import(const void * readFrom,  int16 & writeTo) {writeTo = B_LENDIAN_TO_HOST_INT16(muscleCopyIn<int16>(readFrom));}
@@ -86,7 +86,7 @@ public:
      *                 Note that (readFrom) is NOT required to be an aligned address; these methods will handle unaligned reads correctly.
      * @param writeTo the POD-type variable whose value should be set based on the bytes we read.
      */
-   static void Import(const void * readFrom,   bool & writeTo) {writeTo = muscleCopyIn< bool>(readFrom);}
+   static void Import(const void * readFrom,   bool & writeTo) {writeTo = (muscleCopyIn<uint8>(readFrom) != 0);}
    static void Import(const void * readFrom,   int8 & writeTo) {writeTo = muscleCopyIn< int8>(readFrom);}
    static void Import(const void * readFrom,  uint8 & writeTo) {writeTo = muscleCopyIn<uint8>(readFrom);}
    static void Import(const void * readFrom,  int16 & writeTo) {writeTo = B_BENDIAN_TO_HOST_INT16(  muscleCopyIn< int16>(readFrom));}
@@ -138,7 +138,7 @@ public:
      *                 Note that (readFrom) is NOT required to be an aligned address; these methods will handle unaligned reads correctly.
      * @param writeTo the POD-type variable whose value should be set based on the bytes we read.
      */
-   static void Import(const void * readFrom,   bool & writeTo) {writeTo = muscleCopyIn<  bool>(readFrom);}
+   static void Import(const void * readFrom,   bool & writeTo) {writeTo = (muscleCopyIn<uint8>(readFrom) != 0);}
    static void Import(const void * readFrom,   int8 & writeTo) {writeTo = muscleCopyIn<  int8>(readFrom);}
    static void Import(const void * readFrom,  uint8 & writeTo) {writeTo = muscleCopyIn< uint8>(readFrom);}
    static void Import(const void * readFrom,  int16 & writeTo) {writeTo = muscleCopyIn< int16>(readFrom);}
